@@ -451,7 +451,13 @@ create_unique_client_name (BusRegistry *registry,
       if (!_dbus_string_append_int (str, next_minor_number))
         return FALSE;
 
-      next_minor_number += 1;
+      /* When the minor number is used up, the check at the top of the
+       * loop moves on to the next major number. Do not rely on signed
+       * overflow for that: it is undefined behaviour. */
+      if (next_minor_number == _DBUS_INT_MAX)
+        next_minor_number = 0;
+      else
+        next_minor_number += 1;
 
       /* Check if a client with the name exists */
       if (bus_registry_lookup (registry, str) == NULL)
